@@ -1982,6 +1982,8 @@ class RawAlgorithmsMixIn:
         for p in range(P):
             b = [0,N]
             L_tilde_data = A_data[:,p].copy()
+            # Q is built up by products with Q_data itself: a caller supplied buffer must not contribute its old content
+            Q_data[:,p] = 0
             Q_data[0,p] = numpy.eye(N)
             for D in range(DT):
                 # print 'relaxed problem of order d=',D+1
